@@ -65,6 +65,8 @@ CONFIGS = {
     "K31": dict(lend=dict(req="0.5", isym="USD", period=10, minint=1, req_by_symbol={"BTC": "0"}), fee=("0.25", 500), liq=None,
                 init=(("USD", 100),), bp=0, qp=2),
     # interest on every loan charged in BTC: for a USD loan the conversion goes through the inverse of BTC/USD
+    # orders and cancellations made by a job scheduled BETWEEN two bars (not from a bar handler)
+    "K39": dict(lend=None, fee=(1, 2), liq=(25, 10), init=(("USD", 1000), ("BTC", 5)), bp=0, qp=2, mid_actions=True),
     # a NEGATIVE initial balance (a debt the account starts with, behind which there is no loan) next to margin loans in the
     # same symbol: only the ledger oracle of C01 is meaningful here (C02's borrowed = open loans excludes it by construction)
     "K38": dict(lend=dict(req="0.5", isym="USD", period=10), fee=None, liq=None, init=(("USD", 1000), ("BTC", -1)), bp=0, qp=2),
@@ -85,7 +87,7 @@ CONFIGS = {
 
 
 
-PURPOSE_BUILT = {"K35", "K36", "K37", "K38", "K23", "K24", "K25", "K26", "K27", "K28", "K29", "K30", "K31", "K33", "K34"}
+PURPOSE_BUILT = {"K35", "K36", "K37", "K38", "K39", "K23", "K24", "K25", "K26", "K27", "K28", "K29", "K30", "K31", "K33", "K34"}
 
 
 def thorough_spec(quick, focus, cross=False, exclude=()):
